@@ -855,6 +855,15 @@ macro_rules! visit_x_tokens {
                 let rz = <$ty as Visit>::visit(inp, &mut Zst);
                 let same = ZLOG.with(|z| *z.borrow() == zlog_of_toks(&$rec.toks));
                 write!(s, " x_zst={}", (same && rz == $r) as u8).unwrap();
+                // one visitor object used for two consecutive visits of the same bytes: the second visit delivers the
+                // same callbacks again and returns the same result
+                let mut twice = Rec::new(inp, -1, false);
+                let r1 = <$ty as Visit>::visit(inp, &mut twice);
+                let n1 = twice.toks.len();
+                let r2 = <$ty as Visit>::visit(inp, &mut twice);
+                let again = twice.over > 0 || (r1 == $r && r2 == $r && n1 == $rec.toks.len() && twice.toks.len() == 2 * n1
+                    && twice.toks[..n1] == $rec.toks[..] && twice.toks[n1..] == $rec.toks[..]);
+                write!(s, " x_reuse={}", again as u8).unwrap();
             }
             if let Ok(p) = &$r {
                 let view: &[u8] = p.parsed().as_ref();
@@ -973,6 +982,19 @@ fn run_txouts(inp: &[u8], brk: i64) -> String {
                     let n = iter_toks.len();
                     let item = |o: &bsl::TxOut| txout_fields(inp, o);
                     let want = |i: usize| iter_toks.get(i).map(|t| t.rsplit_once(',').unwrap().0.to_string());
+                    // two iterators over the same list stepped alternately, with len() / size_hint() queried (twice) in
+                    // between: iterators share nothing and querying changes nothing
+                    {
+                        let mut a = x.iter();
+                        let mut b = x.iter();
+                        for i in 0..=n {
+                            let (la, lb) = (a.len(), b.len());
+                            if a.len() != la || a.size_hint() != (la, Some(la)) || b.len() != lb { return format!("two:{}:len", i); }
+                            let ga = a.next().map(|o| item(&o));
+                            let gb = b.next().map(|o| item(&o));
+                            if ga != want(i) || gb != want(i) { return format!("two:{}:item", i); }
+                        }
+                    }
                     let mut js = vec![0usize, 1, n / 2, n.saturating_sub(1), n];
                     js.retain(|j| *j <= n);
                     js.dedup();
